@@ -599,8 +599,11 @@ func (e *enc) rangeNext(b *ssa.BasicBlock, x *ssa.Next) {
 		return
 	}
 	ks, vs := e.so.of(st.mt.Key()), e.so.of(st.mt.Elem())
+	st.nd0, st.nf0 = len(e.decls), len(e.defs)
+	st.ord = fr.loopOrd[b]
 	k := e.fresh("rk", ks)
 	st.curKey = k
+	fr.activeRange = st
 	// visited set: havoced at the header (it is a loop-carried ghost)
 	vis := st.visited
 	if vis == "" {
